@@ -8,12 +8,12 @@ OBL = []
 
 MODPATH = {
     "ast.rs": "ast", "ast__sim.rs": "ast::sim", "asm.rs": "asm", "asm__objblock.rs": "asm", "sim__new.rs": "sim", "sim__device__timer__seed.rs": "sim::device::timer", "asm__encoding.rs": "asm::encoding", "err.rs": "err",
-    "parse.rs": "parse", "parse__lex.rs": "parse::lex", "sim.rs": "sim", "sim__mem.rs": "sim::mem", "sim__mem__copy.rs": "sim::mem", "sim__frame.rs": "sim::frame", "sim__device.rs": "sim::device", "sim__device__poll.rs": "sim::device", "sim__device__h.rs": "sim::device", "sim__frame__h.rs": "sim::frame", "sim__mem__h.rs": "sim::mem",
+    "parse.rs": "parse", "parse__lex.rs": "parse::lex", "sim.rs": "sim", "sim__mem.rs": "sim::mem", "sim__mem__copy.rs": "sim::mem", "sim__frame.rs": "sim::frame", "sim__device.rs": "sim::device", "sim__device__poll.rs": "sim::device", "sim__device__h.rs": "sim::device", "sim__frame__h.rs": "sim::frame", "sim__mem__h.rs": "sim::mem", "sim__frame__sig.rs": "sim::frame", "asm__encoding__deser.rs": "asm::encoding",
     "sim__device__timer.rs": "sim::device::timer", "sim__device__keyboard.rs": "sim::device::keyboard", "sim__device__display.rs": "sim::device::display", "sim__debug.rs": "sim::debug", "sim__observer.rs": "sim::observer",
 }
 
 
-MODNAME = {"sim__new.rs": "verif_kani_new", "sim__device__timer__seed.rs": "verif_kani_seed", "asm__objblock.rs": "verif_kani_gen::objblock_h", "sim__mem__copy.rs": "verif_kani_copy", "sim__device__poll.rs": "verif_kani_poll", "sim__device__h.rs": "verif_kani_h", "sim__frame__h.rs": "verif_kani_h", "sim__mem__h.rs": "verif_kani_h"}
+MODNAME = {"sim__new.rs": "verif_kani_new", "sim__device__timer__seed.rs": "verif_kani_seed", "asm__objblock.rs": "verif_kani_gen::objblock_h", "sim__mem__copy.rs": "verif_kani_copy", "sim__device__poll.rs": "verif_kani_poll", "sim__device__h.rs": "verif_kani_h", "sim__frame__h.rs": "verif_kani_h", "sim__mem__h.rs": "verif_kani_h", "sim__frame__sig.rs": "verif_kani_sig", "asm__encoding__deser.rs": "verif_kani_deser"}
 
 
 def K(id, module, harness, props, functions, kind="complete", bound=None, tier="quick", args=None, timeout=900,
@@ -84,6 +84,12 @@ for h, b in (("debug_frame_0", "empty frame list"), ("debug_frame_1", "one frame
 for n in (0, 1, 2):
     K(f"K.frame.arguments_{n}", "sim__frame__h.rs", f"arguments_{n}", ["C27"], ["ParameterList::get_arguments"],
       kind="bounded", bound=f"{n} parameter(s)", args=UF, group="frame", timeout=1200)
+for h, b in (("sig_trap_registered", "TRAP frame, vector x21"), ("sig_trap_other_vector", "TRAP frame, vector x23"), ("sig_trap_wide_address", "TRAP frame, address x0121"),
+             ("sig_interrupt_same_low_byte", "interrupt frame, address x0121"), ("sig_interrupt_same_address", "interrupt frame, address x0021"), ("sig_subroutine_same_address", "subroutine frame, address x0021")):
+    K(f"K.frame.{h}", "sim__frame__sig.rs", h, ["C27"], ["FrameStack::push_frame", "FrameStack::frames"],
+      kind="bounded", bound=b + "; one signature registered (trap vector x21, calling convention, no named parameter); registers, memory, caller, depth symbolic",
+      args=UF, stubs=[RS], unwindset={"hashbrown": 3}, group="framesig", timeout=1500)
+# (sig_redefinition_overwrites -- two registrations of one subroutine, then a lookup -- is kept in the harness file but not registered: no verdict in 12 min)
 
 # ------------------------------------------------------------------------------------------------ sim/device.rs
 SLOT = "<SimDevice as ExternalDevice>::{io_read,io_write,poll_interrupt,io_reset}=recording stub: arbitrary result, no access to simulator state (guaranteed by the &mut self signature)"
@@ -260,6 +266,7 @@ for h in ("errspan_from_array_0", "errspan_from_array_1", "errspan_from_array_2"
 K("K.enc.count_digits", "asm__encoding.rs", "count_digits_contract", ["C19"], ["count_digits"], group="enc", replay="native")
 for h in ("split_0", "split_3", "split_8", "take_2_of_1", "take_2_of_5", "take_8_of_8", "take_8_of_7", "take_1_of_0", "map_chunks_3", "map_chunks_2", "sorted_no_dup"):
     K(f"K.enc.{h}", "asm__encoding.rs", h, ["C19"], ["take", "take_slice", "try_split_at", "map_chunks", "assert_sorted_no_dup"], kind="bounded", bound="slices of <= 8 bytes", group="enc")
+# (kani/asm__encoding__deser.rs -- BinaryFormat::deserialize on header + one record -- is not registered: every harness ran out of memory, DESIGN section 8)
 
 # ------------------------------------------------------------------------------------------------ Verus units
 Vv("V.shift", "shift", ["C01", "C02"], ["Cursor::shift (nested in SymbolTable::new)"], 3, native_search="shift",
@@ -292,7 +299,7 @@ PROPS = {
  "C23": ("other", "Bounded stand-in: one-label tables built directly, one obligation per query spelling (upper, lower, other name) for lookup_label and get_label_source; rev_lookup_label and label_iter; pass 1's add_label (extracted verbatim) for a new name."),
  "C25": ("proof", "Index arithmetic unbounded (Verus on the verbatim bodies of count_lines, raw_line_span, get_pos_pair: any text length, any number of lines, any index, incl. past the end), against the assumed contract of get_line which is checked bounded (<= 4 table entries) by Kani; the same arithmetic is also cross-checked by bounded Kani obligations on directly built tables; trimming bounded (<= 4 ASCII bytes). from_string's newline scan (the invariant of the table) is assumed."),
  "C26": ("proof", "Span container: every ErrSpan constructible through its public From/Extend impls (incl. the empty list both link errors carry) supports first() and iter() without panic. Call sites assumed."),
- "C27": ("proof", "Depth delta and the content of every entered frame (caller = calling / interrupted instruction, callee = subroutine start or vector, kind) are part of the ISA reference of every step (L2, push_frame replaced by its contract); push/pop leaf contract; debug frames without signature and get_arguments bounded (<= 2 parameters)."),
+ "C27": ("proof", "Depth delta and the content of every entered frame (caller = calling / interrupted instruction, callee = subroutine start or vector, kind) are part of the ISA reference of every step (L2, push_frame replaced by its contract); push/pop leaf contract; debug frames without signature, get_arguments (<= 2 parameters) and the choice of signature table per frame kind (one trap signature registered, concrete kind/address per obligation) bounded. Re-registration of a signature and the built-in trap signatures are assumed."),
  "C28": ("proof", "Observer calls exact in read_mem/write_mem (L1), every program access tracked and the access set is the ISA's (L2); observer map bounded (2 updates)."),
  "C29": ("other", "Partial, bounded: MemArray::copy_obj_block (the function that places one block of the image) sets exactly the block's initialized words, marks its reserved words uninitialized and leaves every other word unchanged, incl. blocks that wrap past xFFFF -- for concrete start addresses and shapes (6 obligations), values / old memory / probe symbolic. The constructor new_with_mcr: OS loaded once, every word of the I/O page an initialized zero (symbolic probe, all strategies), with the 64K filler, slice::fill, load_os and FrameStack::new stubbed. load_obj_file's loop over blocks, the external-symbol check and 'a new simulator holds the OS image' are not covered."),
  "C30": ("proof", "reset against new_with_mcr's contract (recording stub): constructor called once with the same flags and the same MCR handle; all architectural state (registers, PC, PSR, saved SP, frame depth, instruction count, memory at a symbolic probe, halt/breakpoint status) is the fresh machine's; device handler moved across; register map kept by content (one concrete mapping, bounded). The constructor body against its own contract (flags and MCR handle as given, counter 0, not halted, I/O page clear; deterministic for the Known strategy) with the 64K filler, slice::fill, load_os, FrameStack::new and rand stubbed."),
